@@ -34,7 +34,12 @@ Fixpoint toks_eqb (a : list (toktype * text)) (b : list (N * text)) : bool :=
   | _, _ => false
   end.
 
+(* the table facts every scanner theorem assumes, evaluated on the table of the case: NUL, '.' and '@' are neither
+   letter nor number *)
+Definition table_ok (isln : N -> bool) : bool := negb (isln 0) && negb (isln 46) && negb (isln 64).
+
 Definition check (k : scase) : bool :=
+  table_ok (mem_rune (k_ln k)) &&
   match scan_all (mem_rune (k_ln k)) (assoc_rune (k_low k)) (k_tops k) (k_unesc k) (k_in k) with
   | Ok toks => negb (k_panic k) && toks_eqb toks (k_toks k)
   | Panic => k_panic k
